@@ -260,14 +260,17 @@ def check(tier, seed, replay=None):
                 corr = {'engine': 'dist', 'channel': 'X.dist.bits', 'what': '%d pairs differ bit-wise between model and implementation' % len(ml)}
                 break
         if corr is None:
-            rows = '; '.join('(%d, %d)' % (bits(x), r) for x, r in zip(acos_args, acos_out))
-            body = ('From Coq Require Import ZArith Floats List Bool.\nFrom Syz Require Import Quant Dist.\nImport ListNotations.\nOpen Scope Z_scope.\n'
-                    'Definition rows : list (Z * Z) := [' + rows + '].\n'
-                    'Definition mismatches := Eval vm_compute in map fst (filter (fun r => negb (Z.eqb (bits64 (acos (of_bits64 (fst r)))) (snd r))) rows).\nPrint mismatches.\n')
-            rc2, o2, e2 = floatvm.coq_eval('c06_acos', body)
-            ml = floatvm.parse_z_list(o2, 'mismatches')
-            if rc2 != 0 or ml is None or ml:
-                corr = {'engine': 'dist', 'channel': 'X.dist.acos', 'what': 'acos transcription differs from math.Acos on %s %s' % (ml[:3] if ml else ml, (e2 or '')[-200:])}
+            pairs_ = list(zip(acos_args, acos_out))
+            for s0 in range(0, len(pairs_), 4000):          # sharded: one list literal of 50000 pairs overflows the parser's stack
+                rows = '; '.join('(%d, %d)' % (bits(x), r) for x, r in pairs_[s0:s0 + 4000])
+                body = ('From Coq Require Import ZArith Floats List Bool.\nFrom Syz Require Import Quant Dist.\nImport ListNotations.\nOpen Scope Z_scope.\n'
+                        'Definition rows : list (Z * Z) := [' + rows + '].\n'
+                        'Definition mismatches := Eval vm_compute in map fst (filter (fun r => negb (Z.eqb (bits64 (acos (of_bits64 (fst r)))) (snd r))) rows).\nPrint mismatches.\n')
+                rc2, o2, e2 = floatvm.coq_eval('c06_acos_%d' % s0, body)
+                ml = floatvm.parse_z_list(o2, 'mismatches')
+                if rc2 != 0 or ml is None or ml:
+                    corr = {'engine': 'dist', 'channel': 'X.dist.acos', 'what': 'acos transcription differs from math.Acos on %s %s' % (ml[:3] if ml else ml, (e2 or '')[-200:])}
+                    break
         chk.notes.append('model evaluation (vm_compute) took %.1fs' % (time.time() - t0))
     if nviol == 0:
         if corr:
